@@ -240,7 +240,7 @@ func (s *clientSocket) Connect() {
 	managerConnState := s.manager.state
 	s.manager.stateMu.RUnlock()
 	if managerConnState != clientConnStateReconnecting {
-		go s.manager.open()
+		go s.manager.open(s.manager.closeGeneration())
 	}
 
 	// If already connected, send a CONNECT packet.
